@@ -69,11 +69,56 @@ func (sh *Shared) handlerFor(fn *ssa.Function) (handler, bool) {
 	}
 	h := sh.lookupHandler(fn)
 	if h == nil {
+		h = sh.harnessStub(fn)
+	}
+	if h == nil {
 		sh.byFn.Store(fn, noHandler{})
 		return nil, false
 	}
 	sh.byFn.Store(fn, h)
 	return h, true
+}
+
+// harnessStub: a harness function named Stub_<package name>_<function> (methods:
+// Stub_<package name>_<receiver type>_<method>) replaces the external function; calls made from
+// inside a Stub_ function itself reach the real one.
+func (sh *Shared) harnessStub(fn *ssa.Function) handler {
+	if sh.entry == nil || sh.entry.Pkg == nil {
+		return nil
+	}
+	var pkgName, name string
+	if fn.Pkg != nil && fn.Signature.Recv() == nil {
+		pkgName, name = fn.Pkg.Pkg.Name(), fn.Name()
+	} else if recv := fn.Signature.Recv(); recv != nil {
+		t := recv.Type()
+		if p, ok := t.(*types.Pointer); ok {
+			t = p.Elem()
+		}
+		if n, ok := t.(*types.Named); ok && n.Obj().Pkg() != nil {
+			pkgName, name = n.Obj().Pkg().Name(), n.Obj().Name()+"_"+fn.Name()
+		}
+	}
+	if name == "" {
+		return nil
+	}
+	stub := sh.entry.Pkg.Func("Stub_" + pkgName + "_" + name)
+	if stub == nil {
+		return nil
+	}
+	for _, o := range sh.cfg.Opaque {
+		_ = o
+	}
+	return func(e *Exec, f *ssa.Function, args []Value) Value {
+		// inside a stub the real function is meant
+		st := e.sch.cur.stack
+		if len(st) > 0 && strings.HasPrefix(st[len(st)-1].Name(), "Stub_") {
+			if f.Blocks == nil {
+				panic(unsupported("stub calls a function without body: " + f.String()))
+			}
+			return e.callReal(f, args)
+		}
+		return e.call(stub, args, nil)
+	}
 }
 
 func (sh *Shared) lookupHandler(fn *ssa.Function) handler {
@@ -109,6 +154,11 @@ func (sh *Shared) lookupHandler(fn *ssa.Function) handler {
 		}
 	case fn.Name() == "String" && (strings.Contains(pkg, "/proto/") || strings.HasSuffix(pkg, "/proto")) && fn.Signature.Recv() != nil:
 		return func(e *Exec, fn *ssa.Function, a []Value) Value { return opaqueStr(e, "protostring") }
+	}
+	for _, o := range sh.cfg.Opaque {
+		if o == name {
+			return noop
+		}
 	}
 	switch name {
 	case "context.Background", "context.TODO":
